@@ -249,7 +249,7 @@ def run_episode(
     trace = [ev]
     for m in monitors:
         m.on_reset(ev)
-    ctx = {"env_name": runner.env_name, "spec": runner.spec, "rng": rng, "runner": runner, "legal_only": True, "policy": policy if isinstance(policy, str) else "custom"}
+    ctx = {"env_name": runner.env_name, "spec": runner.spec, "rng": rng, "runner": runner, "legal_only": True, "policy": policy if isinstance(policy, str) else "custom", "key": key, "key_int": key_int, "episode": episode}
     t = 0
     after_last = 0
     info = {"steps": 0, "ended": False, "legal_only": True, "policy": ctx["policy"]}
